@@ -15,7 +15,6 @@ from harness.common import cbytes, clist, cnat
 from harness.props import pyfun_util
 
 PID = "C13"
-KEY_CACHE = "decryptor-cache-keyed-by-key-only"
 M2S, S2M = 1, 2
 MASK = 0xE3
 EXC = {"IndexError": 1, "UnboundLocalError": 2, "ValueError": 3, "error": 4, "MissingCryptographicMaterial": 5}
@@ -586,12 +585,15 @@ def gen_multicaptures(ctx):
         if i % 4 == 2:
             keys = [rand_material(rng, 5)[0]] + keys  # an unrelated key is tried first
         out.append({"kind": kind + "-" + way, "keys": keys, "way": way, "sessions": sessions, "events": events})
-    # reconnection of bonded devices: the SAME key with fresh SKD/IV (known finding class)
+    # reconnection of bonded devices: the SAME key with fresh SKD/IV (regression of the repaired cache defect)
     for way in ("direct", "sniffer"):
         s1 = session()
         s2 = session(key=s1["ltk"])
         out.append({"kind": "same-key-new-material-" + way, "keys": [s1["ltk"]], "way": way, "sessions": [s1, s2],
                     "events": pdus(0, 3) + pdus(1, 3)})
+        s3, s4 = session(), session(key=s1["ltk"])
+        out.append({"kind": "same-key-new-material-" + way, "keys": [s3["ltk"], s1["ltk"]], "way": way, "sessions": [s1, s3, s2, s4],
+                    "events": pdus(0, 2) + pdus(1, 2) + pdus(2, 3) + pdus(3, 2)})
     return out
 
 
@@ -602,12 +604,8 @@ def judge_multicapture(ctx, c, res):
         return ctx.violation("decryptor raised " + res["exc"] + " on a capture with several sessions", case)
     for i, (o, want, si) in enumerate(zip(res["obs"], res["plain"], res["sid"])):
         if not (o["k"] == 1 and o["d"] == want):
-            # class of the known finding: the session's key was already used by an EARLIER session with other material
-            me = c["sessions"][si]
-            reused = any(c["sessions"][j]["ltk"] == me["ltk"] and c["sessions"][j]["mat"] != me["mat"] for j in range(si))
             n += ctx.violation("passive decryptor did not recover PDU #%d (session %d of %d, its key is known) of a capture with several sessions (%s)"
-                               % (i, si + 1, len(c["sessions"]), c["kind"]), dict(case, failing_pdu=i),
-                               key=KEY_CACHE if reused else None, expected=want, observed=o)
+                               % (i, si + 1, len(c["sessions"]), c["kind"]), dict(case, failing_pdu=i), expected=want, observed=o)
             break
     return n
 
@@ -652,7 +650,7 @@ def dec_term(keys, mats, pdus, res):
         return "(%d, %s)" % (o["k"], cbytes(bytes.fromhex(o["d"])))
     return "(%s, %s, %s, %s, %s)" % (clist([cbytes(bytes.fromhex(k)) for k in keys]), clist([cmat(m) for m in mats]),
                                      clist([cbytes(bytes.fromhex(p)) for p in pdus]), clist([dob(o) for o in res["obs"]]),
-                                     clist(["(%s, %d, %d)" % (cbytes(bytes.fromhex(k)), mc, sc) for k, mc, sc in res["final"]]))
+                                     clist(["(%s, %d, %d, %d)" % (cbytes(bytes.fromhex(k)), i if i >= 0 else 4095, mc, sc) for k, i, mc, sc in res["final"]]))
 
 
 def blocks_of_case(c):
